@@ -340,7 +340,16 @@ func cmdRun(args []string) int {
 	for _, s := range sigOrder {
 		si := sigs[s]
 		if !si.confirmed {
-			inconclusive = append(inconclusive, fmt.Sprintf("counterexample %s not reproduced natively (%s)", s, si.result))
+			listed := false
+			for _, k := range known {
+				if k.Kind == "finding" && k.Property == *prop && k.Sig == s {
+					listed = true
+					knownLines = append(knownLines, fmt.Sprintf("KNOWN-FINDING: property=%s sig=%s %s (solver witness; the native replay did not reproduce it in this run: %s)", *prop, s, k.Text, si.result))
+				}
+			}
+			if !listed {
+				inconclusive = append(inconclusive, fmt.Sprintf("counterexample %s not reproduced natively (%s)", s, si.result))
+			}
 			continue
 		}
 		isKnown := false
